@@ -743,6 +743,11 @@ class TimeoutHandler(PoolThread):
                 dirty = set(k for k in dirty if k in cache)
 
             for i, job in cache.items():
+                if isinstance(job, MapResult) or \
+                        not isinstance(job, ApplyResult):
+                    # map/imap handles have no single accept time
+                    # and take no time limits.
+                    continue
                 ack_time = job._time_accepted
                 soft_timeout = job._soft_timeout
                 if soft_timeout is None:
